@@ -670,3 +670,23 @@ def r8b(text):
     t, n2 = re.subn(r"while\s+let\s+\[(%s)\s*\|\s*(%s),\s*(\w+)\s*@\s*\.\.\]\s*=\s*(\w+)\s*\{" % (lit, lit),
                     r"while \4.len() >= 1 && (\4[0] == \1 || \4[0] == \2) { let \3 = slice_from(\4, 1);", t)
     return t, n1 + n2
+
+
+@rule("R33", "Definitions of Poll::map / Option::map / Result::map on the chain in Body::poll_frame: "
+             "`X.map(|p| p.map(|o| o.map(http_body::Frame::data)))` -> explicit matches that apply `Frame::data` to the "
+             "Ok payload and leave Pending / None / Err unchanged.")
+def r33(text):
+    n = 0
+    while True:
+        m = re.search(r"\.\s*map\(\s*\|p\|\s*p\.map\(\s*\|o\|\s*o\.map\(\s*http_body::Frame::data\s*\)\s*\)\s*\)", text)
+        if not m:
+            break
+        rs = _receiver_start(text, m.start())
+        recv = text[rs:m.start()].rstrip()
+        rep = ("match %s { Poll::Ready(p) => Poll::Ready(match p { Some(o) => Some(match o { Ok(d) => Ok(http_body::Frame::data(d)), "
+               "Err(e) => Err(e) }), None => None }), Poll::Pending => Poll::Pending }") % recv
+        old = text[rs:m.end()]
+        rep = rep + "\n" * max(0, old.count("\n") - rep.count("\n"))
+        text = text[:rs] + rep + text[m.end():]
+        n += 1
+    return text, n
